@@ -113,6 +113,7 @@ func (w *World) RunScript(lines []string) (err error) {
 			if name == "" {
 				name = "db-" + toks[1]
 			}
+			w.reuseOpts = a["reuse"] == "1"
 			if a["unreach"] == "fail" {
 				w.blocks.mu.Lock()
 				w.blocks.FailUnreachable = true
@@ -190,7 +191,50 @@ func (w *World) beforeWrite(p int) {
 	w.expectPub = w.hasTopicPeers(p)
 }
 
+// withIndexHeld runs f (a write or a merge on a watched store) with the store held just before it
+// refreshes its index, long enough for an event emitted too early to reach the watcher's handler,
+// which then sees a state that does not contain what the event announces.
+func (w *World) withIndexHeld(f func() error) error {
+	const hook = "store.index.updating"
+	w.holdHook(hook)
+	done := make(chan error, 1)
+	go func() { done <- f() }()
+	deadline := time.Now().Add(100 * time.Millisecond)
+	finished := false
+	var err error
+	for time.Now().Before(deadline) {
+		select {
+		case err = <-done:
+			finished = true
+		default:
+		}
+		w.mu.Lock()
+		n := w.hookWaiting[hook]
+		w.mu.Unlock()
+		if finished || n >= 1 {
+			break
+		}
+		time.Sleep(100 * time.Microsecond)
+	}
+	if !finished {
+		time.Sleep(2 * time.Millisecond)
+	}
+	w.releaseHook(hook)
+	if !finished {
+		err = <-done
+	}
+	return err
+}
+
 func (w *World) execOp(toks []string) error {
+	switch toks[0] {
+	case "put", "del", "add", "docput", "docdel", "docputall", "sync":
+		if p := atoi(toks[1]); w.evw != nil && w.evw[p] != nil && !w.indexHeld {
+			w.indexHeld = true
+			defer func() { w.indexHeld = false }()
+			return w.withIndexHeld(func() error { return w.execOp(toks) })
+		}
+	}
 	ctx, cancel := context.WithTimeout(w.ctx, 30*time.Second)
 	defer cancel()
 	switch toks[0] {
